@@ -1,0 +1,13 @@
+//go:build verif
+
+package curl
+
+// Verification hooks: aliases of unexported functions, compiled only with -tags verif.
+
+// VerifTransform is the permutation selected by the build (assembly or portable).
+func VerifTransform(lto, hto, lfrom, hfrom *[StateSize]uint) { transform(lto, hto, lfrom, hfrom) }
+
+// VerifTransformGeneric is the portable permutation.
+func VerifTransformGeneric(lto, hto, lfrom, hfrom *[StateSize]uint) {
+	transformGeneric(lto, hto, lfrom, hfrom)
+}
